@@ -6,6 +6,7 @@ package main
 import (
 	"encoding/json"
 	"fmt"
+	"os"
 	"sort"
 	"strings"
 )
@@ -469,6 +470,31 @@ func (sp *Stepper) fork(root string) (*Stepper, error) {
 	}
 	h := append([]Cmd(nil), sp.hist...)
 	return &Stepper{St: st, IDs: sp.IDs.copy(), Gone: g, last: sp.last, hist: h, Base: sp.Base}, nil
+}
+
+// pseudo executes the steps that are not ergo commands (things that happen TO the
+// store): a writer that died inside write(2), a result file whose content is
+// replaced.  They are part of the history (replays and the confirm step repeat them).
+func (sp *Stepper) pseudo(c Cmd) bool {
+	switch c.name() {
+	case "tear":
+		// a fragment without newline at the end of the log
+		if f, err := os.OpenFile(sp.St.LogPath(), os.O_APPEND|os.O_WRONLY, 0o644); err == nil {
+			frag := `{"type":"new_task","ts":"2026-01-01T00:00:00Z","data":{"id":"TORN22","uu`
+			if c.str("how") == "full" {
+				frag = `{"type":"unknown_event","ts":"2026-01-01T00:00:00Z","data":{}}`
+			}
+			_, _ = f.WriteString(frag)
+			f.Close()
+		}
+	case "rewrite":
+		sp.St.rewrite(c.str("path"))
+	default:
+		return false
+	}
+	sp.hist = append(sp.hist, c)
+	sp.last = nil
+	return true
 }
 
 // step runs c and returns the observation record.
